@@ -10,7 +10,9 @@ SCRIPTS = {'C': ['config'], 'CU': ['config', 'upload'], 'U': ['upload'], 'S': ['
 # leave); 'giveup' closes as soon as the server's wait notice arrives, i.e. WHILE waiting for the earlier connection
 SCRIPTS.update({'H': ['hold'], 'CH': ['config', 'hold'], 'CUH': ['config', 'upload', 'hold'], 'G': ['giveup']})
 PAIR_SCRIPTS = ['C', 'CU', 'U', 'S', 'CUS', 'X']
-HOLD_TRIPLES = [('CH', 'G', 'C'), ('H', 'G', 'C'), ('CH', 'G', 'U'), ('CUH', 'G', 'U'), ('CUH', 'G', 'S'), ('H', 'G', 'S'), ('CH', 'C', 'G'), ('H', 'X', 'CU')]
+HOLD_TRIPLES = [('CH', 'G', 'C'), ('H', 'G', 'C'), ('CH', 'G', 'U'), ('CUH', 'G', 'U'), ('CUH', 'G', 'S'), ('H', 'G', 'S'), ('CH', 'C', 'G'), ('H', 'X', 'CU'),
+                # the FIRST connection leaves, the second takes over and stays while the first one's delayed cleanup comes due, then a third
+                ('C', 'CH', 'C'), ('X', 'CH', 'U'), ('C', 'CUH', 'U'), ('CU', 'H', 'S'), ('X', 'H', 'C')]
 REQ = {'config': 'config', 'upload': 'upload_edb', 'search': 'token'}
 REPLY = {'config': 'config', 'upload_edb': 'upload', 'result': 'search'}
 TRIPLES = [('C', 'S', 'S'), ('C', 'C', 'C'), ('CU', 'U', 'S'), ('C', 'U', 'S'), ('CU', 'CU', 'S'), ('C', 'CU', 'U'), ('CU', 'X', 'U'), ('CU', 'X', 'S'), ('C', 'X', 'C')]
